@@ -733,4 +733,80 @@ example : check exMods [exClass] lower true "3 MilliSeconds".toList = [] :=
     "MilliSeconds".toList (by decide) (by decide) "3".toList ⟨3, 0⟩ (by decide) (by decide) (by simp)).2.1
 example : Dec.toRat (Dec.mul ⟨35, -1⟩ (Dec.mul ⟨1, 0⟩ ⟨1, -3⟩)) = 7 / 2000 := by decide +kernel
 
+
+/-! ### the unit written before the number: only prefix-type units -/
+
+/-- is the derived entry one of a `unitPrefix` unit of the class (the guard of the second match
+attempt of `_get_tag_units_portion`) -/
+def isPreD (c : UnitClass) (d : Derived) : Bool := (c.units[d.unit]?.map (·.isPrefix)).getD false
+
+theorem go_unit_first (mods : List Modifier) (fold : Str → Str) (value units : Str)
+    (cs : List UnitClass) (ci : Nat) (hnu : ∀ c ∈ cs, lookupClass mods c fold units = none) :
+    (unitsPortion.go mods fold value units ci cs).isSome = true ↔
+      ∃ c ∈ cs, ∃ d, lookupClass mods c fold value = some d ∧ isPreD c d = true := by
+  induction cs generalizing ci with
+  | nil => simp [unitsPortion.go]
+  | cons c cs ih =>
+    have ih' := ih (ci + 1) (fun c' hc' => hnu c' (by simp [hc']))
+    simp only [unitsPortion.go, hnu c (by simp)]
+    cases hl : lookupClass mods c fold value with
+    | none =>
+      simp only [ih', List.mem_cons, exists_eq_or_imp, hl]
+      simp
+    | some d2 =>
+      cases hp : isPreD c d2 with
+      | true =>
+        have hp' := hp
+        simp only [isPreD] at hp'
+        simp only [hp', ↓reduceIte, Option.isSome_some, true_iff]
+        exact ⟨c, by simp, d2, hl, hp⟩
+      | false =>
+        have hp' := hp
+        simp only [isPreD] at hp'
+        simp only [hp', Bool.false_eq_true, ↓reduceIte, ih', List.mem_cons, exists_eq_or_imp, hl,
+          Option.some.injEq, exists_eq_left', hp, false_or]
+
+/-- **Unit first: accepted iff it is a prefix-type unit.** A text `σ n` (unit text before the number;
+the number is not itself a unit spelling) is split into value and unit exactly when `σ` is a spelling
+of a unit of one of the tag's classes that carries `unitPrefix`; any other unit written first —
+also a unit that would be accepted after the number — is reported as UNITS_INVALID and has no
+converted value. -/
+theorem unit_first_only_prefix_units (mods : List Modifier) (classes : List UnitClass)
+    (fold : Str → Str) (numeric : Bool) (σ n : Str) (hc : classes ≠ []) (hnb : ' ' ∉ n)
+    (hnne : n ≠ []) (hσne : σ ≠ [])
+    (hnu : ∀ c ∈ classes, lookupClass mods c fold n = none) :
+    ((unitsPortion mods classes fold (σ ++ ' ' :: n)).isSome = true ↔
+      ∃ c ∈ classes, ∃ d, lookupClass mods c fold σ = some d ∧ isPreD c d = true) ∧
+    ((¬ ∃ c ∈ classes, ∃ d, lookupClass mods c fold σ = some d ∧ isPreD c d = true) →
+      Issue.unitsInvalid ∈ check mods classes fold numeric (σ ++ ' ' :: n) ∧
+      valueAsDefault mods classes fold (σ ++ ' ' :: n) = .absent) := by
+  have hrp := rpartition_append σ n hnb
+  have hne : n.isEmpty = false := by cases n with | nil => exact absurd rfl hnne | cons _ _ => rfl
+  have hiff : (unitsPortion mods classes fold (σ ++ ' ' :: n)).isSome = true ↔
+      ∃ c ∈ classes, ∃ d, lookupClass mods c fold σ = some d ∧ isPreD c d = true := by
+    unfold unitsPortion
+    simp only [hrp, hne, Bool.false_eq_true, ↓reduceIte]
+    exact go_unit_first mods fold σ n classes 0 hnu
+  refine ⟨hiff, ?_⟩
+  intro hno
+  apply unrecognised_unit mods classes fold numeric _ hc (by simp)
+  · cases h : unitsPortion mods classes fold (σ ++ ' ' :: n) with
+    | none => rfl
+    | some m => exact absurd (hiff.mp (by rw [h]; rfl)) hno
+  · rw [hrp]; exact hσne
+
+/-- non-vacuity: `$ 100` (prefix-type unit) is accepted and converted; `ms 3` is rejected although
+`3 ms` is accepted; `$` after the number is not accepted -/
+def exCurrency : UnitClass :=
+  ⟨"currencyUnits".toList, [⟨"dollar".toList, false, false, false, some ⟨1, 0⟩, "dollars".toList⟩,
+                            ⟨"$".toList, true, false, true, some ⟨1, 0⟩, []⟩], some "$".toList⟩
+example : check [] [exCurrency] lower true "$ 100".toList = [] := by decide
+example : valueAsDefault [] [exCurrency] lower "$ 100".toList = .value ⟨100, 0⟩ := by decide
+example : check [] [exCurrency] lower true "100 $".toList = [.unitsInvalid] := by decide
+example : Issue.unitsInvalid ∈ check [] [exCurrency] lower true "dollars 100".toList := by decide
+example : Issue.unitsInvalid ∈ check exMods [exClass] lower true "ms 3".toList := by decide
+example : valueAsDefault exMods [exClass] lower "ms 3".toList = .absent := by decide
+example : check exMods [exClass] lower true "3 ms".toList = [] := by decide
+example : (unitsPortion [] [exCurrency] lower "$ 100".toList).isSome = true := by decide
+example : (unitsPortion exMods [exClass] lower "ms 3".toList).isSome = false := by decide
 end HedVerif.C11
